@@ -27,7 +27,7 @@ RULE = (
 )
 ASSUMPTIONS = [
     "constraint application is left at its default (enabled) in every move and integrator",
-    "fixed atoms: bitwise equality with the initial positions; FixCom: centre-of-mass drift <= 1e-9 A; FixRot: |L| <= 1e-9 * sum|r||p| and |dP| <= 1e-12 * sum|p|",
+    "fixed atoms: bitwise equality with the initial positions; FixCom: centre-of-mass drift <= 1e-9 A times max(1, largest coordinate) (trajectories whose coordinates exceed 1e6 A - accept-all schedules heating a Hamiltonian run - are not judged); FixRot: |L| <= 1e-9 * sum|r||p| and |dP| <= 1e-12 * sum|p|",
     "FixRot geometries have inertia-tensor condition number <= 1e3 (non-degenerate, as the statement requires)",
     "FixAtoms and FixCom are never combined on one Atoms object: ASE applies constraints one after the other, so FixCom's rigid shift moves the atoms FixAtoms has just restored (an ASE semantics, observed, not a quansino defect)",
 ]
@@ -121,7 +121,10 @@ def run_mc(spec, rec):
             if com0 is not None:
                 rec.count("trials_fixcom")
                 drift = float(np.abs(a.get_center_of_mass() - com0).max())
-                if drift > 1e-9:
+                scale = float(np.abs(a.positions).max(initial=1.0))
+                if not np.isfinite(scale) or scale > 1e6:
+                    rec.count("trajectory_exploded_not_judged")  # accept-all schedules can heat a Hamiltonian run without bound
+                elif drift > 1e-9 * max(1.0, scale):
                     mk = "hamiltonian" if "H" in shape else "displacement"
                     rec.viol(f"C12/centre-of-mass-drift/{mk}/{v}", f"centre of mass drifted by {drift:.3g} A under FixCom", wit)
             rec.sample(wit, cap=2)
